@@ -2650,9 +2650,23 @@ func (f *fragment) writeCacheToArchive(tw *tar.Writer) error {
 }
 
 // ReadFrom reads a data file from r and loads it into the fragment.
+//
+// The archive is read to its end and its data entry is decoded before anything
+// of the fragment is replaced, so that a truncated or malformed archive leaves
+// the fragment (and its files) as they were.
 func (f *fragment) ReadFrom(r io.Reader) (n int64, err error) {
 	f.mu.Lock()
 	defer f.mu.Unlock()
+
+	var haveData, haveCache bool
+	var cacheBuf []byte
+	dataPath := f.path + copyExt
+	defer func() {
+		// Remove the temporary file unless it has become the data file.
+		if haveData {
+			os.Remove(dataPath)
+		}
+	}()
 
 	tr := tar.NewReader(r)
 	for {
@@ -2667,11 +2681,13 @@ func (f *fragment) ReadFrom(r io.Reader) (n int64, err error) {
 		// Process file based on file name.
 		switch hdr.Name {
 		case "data":
-			if err := f.readStorageFromArchive(tr); err != nil {
+			haveData = true
+			if err := f.stageStorageFromArchive(tr, dataPath); err != nil {
 				return 0, errors.Wrap(err, "reading storage")
 			}
 		case "cache":
-			if err := f.readCacheFromArchive(tr); err != nil {
+			haveCache = true
+			if cacheBuf, err = ioutil.ReadAll(tr); err != nil {
 				return 0, errors.Wrap(err, "reading cache")
 			}
 		default:
@@ -2679,12 +2695,24 @@ func (f *fragment) ReadFrom(r io.Reader) (n int64, err error) {
 		}
 	}
 
+	if haveData {
+		if err := f.readStorageFromArchive(dataPath); err != nil {
+			return 0, errors.Wrap(err, "reading storage")
+		}
+		haveData = false
+	}
+	if haveCache {
+		if err := f.readCacheFromArchive(cacheBuf); err != nil {
+			return 0, errors.Wrap(err, "reading cache")
+		}
+	}
+
 	return 0, nil
 }
 
-func (f *fragment) readStorageFromArchive(r io.Reader) error {
-	// Create a temporary file to copy into.
-	path := f.path + copyExt
+// stageStorageFromArchive copies the data entry to a temporary file and makes
+// sure that it decodes.
+func (f *fragment) stageStorageFromArchive(r io.Reader, path string) error {
 	file, err := os.Create(path)
 	if err != nil {
 		return errors.Wrap(err, "creating directory")
@@ -2695,7 +2723,27 @@ func (f *fragment) readStorageFromArchive(r io.Reader) error {
 	if _, err = io.Copy(file, r); err != nil {
 		return errors.Wrap(err, "copying")
 	}
+	if err := file.Sync(); err != nil {
+		return errors.Wrap(err, "syncing")
+	}
 
+	// Decode a scratch bitmap from the copy. A torn last op log entry is
+	// what openStorage repairs; anything else means the data is unusable.
+	buf, err := ioutil.ReadFile(path)
+	if err != nil {
+		return errors.Wrap(err, "reading back")
+	}
+	scratch := roaring.NewFileBitmap()
+	scratch.Flags = f.flags
+	if err := scratch.UnmarshalBinary(buf); err != nil {
+		if _, torn := errors.Cause(err).(*roaring.TornOpLogError); !torn {
+			return errors.Wrap(err, "decoding")
+		}
+	}
+	return nil
+}
+
+func (f *fragment) readStorageFromArchive(path string) error {
 	// Close current storage.
 	if err := f.closeStorage(true); err != nil {
 		return errors.Wrap(err, "closing")
@@ -2717,12 +2765,9 @@ func (f *fragment) readStorageFromArchive(r io.Reader) error {
 	return nil
 }
 
-func (f *fragment) readCacheFromArchive(r io.Reader) error {
-	// Slurp data from reader and write to disk.
-	buf, err := ioutil.ReadAll(r)
-	if err != nil {
-		return errors.Wrap(err, "reading")
-	} else if err := ioutil.WriteFile(f.cachePath(), buf, 0666); err != nil {
+func (f *fragment) readCacheFromArchive(buf []byte) error {
+	// Write the row ids to disk.
+	if err := ioutil.WriteFile(f.cachePath(), buf, 0666); err != nil {
 		return errors.Wrap(err, "writing")
 	}
 
